@@ -145,6 +145,8 @@ func ruleR28(c *Ctx) *RuleResult {
 						bad = append(bad, "key and value are handed over between different nodes")
 					case ksrc != n:
 						bad = append(bad, "the node that handed over its key and value is not the one that is unlinked")
+					case extremeDescent(gc, g, ksrc, kdst):
+						// the descent to the neighbour written out as a loop: starts at the child, hops the other way until nil
 					case !(strings.HasPrefix(ksrc, "(call:") && (strings.Contains(ksrc, ").maximumNode @ (load (fa:Left "+kdst+"))") || strings.Contains(ksrc, ").minimumNode @ (load (fa:Right "+kdst+"))"))):
 						bad = append(bad, "the key and value do not come from the in-order neighbour (maximum of the left / minimum of the right subtree) of the node that stays: "+trunc(ksrc, 160))
 					}
@@ -257,4 +259,47 @@ func ruleR28(c *Ctx) *RuleResult {
 		}
 	}
 	return r
+}
+
+// extremeDescent: src is a loop variable φ:k.j that enters the loop as dst.Left (dst.Right), moves by .Right (.Left) every
+// round, and the path g knows that its .Right (.Left) is nil: the maximum of the left (minimum of the right) subtree of dst.
+func extremeDescent(gc *GCNF, g *GC, src, dst string) bool {
+	if !strings.HasPrefix(src, "φ:") {
+		return false
+	}
+	parts := strings.SplitN(src[len("φ:"):], ".", 2)
+	if len(parts) != 2 {
+		return false
+	}
+	ks, j := parts[0], atoiOr(parts[1], -1)
+	for _, dir := range [][2]string{{"Left", "Right"}, {"Right", "Left"}} {
+		start, hop := dir[0], dir[1]
+		ok, nEntry, nBack := true, 0, 0
+		for _, h := range gc.GCs {
+			if h.Exit.Op != "goto" || h.Exit.Leaf != ks || j < 0 || j >= len(h.Exit.Args) {
+				continue
+			}
+			a := noEpoch(h.Exit.Args[j])
+			if itoa(h.From) == ks {
+				nBack++
+				if a != "(load (fa:"+hop+" "+src+"))" {
+					ok = false
+				}
+			} else {
+				nEntry++
+				if a != "(load (fa:"+start+" "+dst+"))" {
+					ok = false
+				}
+			}
+		}
+		if !ok || nEntry == 0 || nBack == 0 {
+			continue
+		}
+		for _, a := range g.Guards {
+			if a.Op == "==" && len(a.Args) == 2 && a.Args[0].String() == "#:nil" && noEpoch(a.Args[1]) == "(load (fa:"+hop+" "+src+"))" {
+				return true
+			}
+		}
+	}
+	return false
 }
